@@ -213,6 +213,7 @@ def exhaustive(k, n, maxlen, stats):
 
 # ------------------------------------------------------------------ (b) + (c) hypothesis
 
+MUT_TOKENS = TOKENS + ["\n", "\t", "c\n", "$", "{", "}", "|", "\u00b2", "-", ">", ".", "..", "a.b", "0", "00"]
 _SEEDS = []
 
 
@@ -255,7 +256,7 @@ def text_case(draw):
             elif m == "ell":
                 toks.insert(i + 1, "...")
             else:
-                toks.insert(i, draw(st.sampled_from(TOKENS)))
+                toks.insert(i, draw(st.sampled_from(MUT_TOKENS)))
         s = "".join(toks)
     elif kind == "deep":
         d = draw(st.integers(5, 40))
@@ -285,8 +286,11 @@ def text_case(draw):
                 elif m == "swap" and i + 1 < len(toks):
                     toks[i], toks[i + 1] = toks[i + 1], toks[i]
                 else:
-                    toks.insert(i, draw(st.sampled_from(TOKENS)))
+                    toks.insert(i, draw(st.sampled_from(MUT_TOKENS)))
             s = "".join(toks)
+    if draw(st.integers(0, 14)) == 0:
+        # whitespace other than the blank is not part of the notation: multi-line / tab-separated descriptions
+        s = s.replace(" ", draw(st.sampled_from(["\n", "\t", " \n", "\r\n"])), draw(st.integers(1, 3)))
     return {"kind": "string", "string": s, "op_seed": draw(st.integers(0, 10**6)), "origin_op": origin_op}
 
 
